@@ -10,6 +10,13 @@ conversions, not from the code): for every overload it gives
 props/C04/mkprops.py turns it into coq/C04/Properties_*.v, coq/C04/Extract.v, ocaml/C04/driver.ml and
 harness/C04/tv_gen.inc."""
 
+# THE VALUE OF A SHAPE IS THE TUPLE OF ITS NAMED COMPONENTS.  The padded 3-component shape vec_t<T,3,true> ('3a') has a 4th
+# storage slot padding_ that is NOT a component: no constructor initialises it, the model record vec3a has the fields x,y,z
+# only, and every operation (== != anyLessThan std::less min max dot ... copies, conversions, streaming) is specified over
+# x,y,z alone - two padded vectors with equal x,y,z are equal whatever leftovers their padding slots hold.  An implementation
+# that looks at the whole object (memcmp, hashing the bytes) is not a function of the model's value: the regenerated
+# definition becomes UNSUPPORTED / different (broken theorem) and both harnesses build every padded operand by placement-new
+# into buffers pre-filled with different byte patterns through every constructor form to expose it with concrete operands.
 SH = {'2': ('vec2', 'xy'), '3': ('vec3', 'xyz'), '3a': ('vec3a', 'xyz'), '4': ('vec4', 'xyzw')}
 CT = {'f': 'F32', 'i': 'I32', 'd': 'F64', 'uc': 'U8', 'ul': 'U64'}
 CXXT = {'f': 'float', 'i': 'int', 'd': 'double', 'uc': 'uint8_t', 'ul': 'size_t'}
